@@ -1457,7 +1457,45 @@ end Jwt.Generated
     return "ClaimRules.lean", text, {"time_rules": rules, "str_claims": strs}
 
 
-GENERATORS = [gen_base64, gen_alg, gen_common, gen_jwk, gen_ops, gen_cli, gen_conc, gen_ecframe, gen_ll, gen_base64code, gen_digests, gen_gates, gen_decisions, gen_dispatch, gen_claims]
+def gen_jsonflags(repo, build):
+    """every call into jansson's text <-> tree functions with the flags it passes (the JsonCodec oracle stands for exactly these)"""
+    calls = []
+    for rel in ("libjwt/jwks.c", "libjwt/jwt-encode.c", "libjwt/jwt-setget.c", "libjwt/jwt-verify.c", "libjwt/jwt-common.c", "libjwt/jwt.c"):
+        src = open(os.path.join(repo, rel)).read()
+        src = re.sub(r"/\*.*?\*/", lambda m_: " " * len(m_.group(0)), src, flags=re.S)
+        src = re.sub(r"//[^\n]*", lambda m_: " " * len(m_.group(0)), src)
+        for m in re.finditer(r"\b(json_dumps|json_dumpf|json_dump_callback|json_loads|json_loadb|json_loadf|json_load_file)\s*\(", src):
+            depth, i = 1, m.end()
+            while depth and i < len(src):
+                depth += src[i] == "("
+                depth -= src[i] == ")"
+                i += 1
+            args = split_top(src[m.end():i - 1])
+            fn = enclosing_function(src, m.start()) or "?"
+            flag_arg = {"json_dumps": 1, "json_dumpf": 2, "json_dump_callback": 3, "json_loads": 1, "json_loadb": 2, "json_loadf": 1, "json_load_file": 1}[m.group(1)]
+            flags = re.sub(r"\s+", "", args[flag_arg]) if flag_arg < len(args) else "?"
+            if flags == "flags":
+                # a local variable: collect what the function ORs into it
+                body = func_body(src, r"\b%s\s*\([^)]*\)\s*\{" % re.escape(fn)) if fn != "?" else ""
+                parts = re.findall(r"flags\s*(?:\|?=)\s*([^;]+);", body)
+                flags = "var:" + "|".join(sorted(re.sub(r"\s+", "", p_) for p_ in parts))
+            calls.append((os.path.basename(rel), fn, m.group(1), flags))
+    calls.sort()
+    rows = ", ".join('("%s", "%s", "%s", "%s")' % c for c in calls)
+    text = f"""/- GENERATED by tie/extract.py from the library sources -- do not edit.
+   Every call of jansson's parser and printer in libjwt: (file, calling function, jansson function, flags expression).
+   The model's JsonCodec oracle (answered by harness/jsonlib.py) stands for exactly these calls with exactly these flags.
+   Regenerated from /repo on every check run; Jwt/Props/C10.lean pins the table. -/
+namespace Jwt.Generated
+
+def jsonCalls : List (String × String × String × String) := [{rows}]
+
+end Jwt.Generated
+"""
+    return "JsonCalls.lean", text, {"calls": calls}
+
+
+GENERATORS = [gen_base64, gen_alg, gen_common, gen_jwk, gen_ops, gen_cli, gen_conc, gen_ecframe, gen_ll, gen_base64code, gen_digests, gen_gates, gen_decisions, gen_dispatch, gen_claims, gen_jsonflags]
 
 
 def main():
